@@ -151,10 +151,13 @@ def events_of(F, fn, p, local_roles):
                 if snap and snap[0] == "agg" and snap[1] == "array" and len(snap[5]) == 1 and sym.is_c(snap[5][0]):
                     b = snap[5][0][1]
                 na = norm(a)
+                raw = a
+                while raw[0] == "ref" and raw[1][0] == "P":
+                    raw = raw[1][1]
                 if b is not None:
                     evs.append(("Tag", b))
-                elif na[0] == "call" and (na[2] or "").endswith("<impl str>::as_bytes"):
-                    evs.append(("Name", field_path(na[3][0])[1:]))
+                elif raw[0] == "call" and (raw[2] or "").endswith("<impl str>::as_bytes"):
+                    evs.append(("Name", field_path(raw[3][0])[1:]))
                 else:
                     evs.append(("Bytes", sym.show(na)))
             elif role == "update_str":
@@ -323,9 +326,9 @@ def run(run_, ctx):
     if upds:
         # the str variant may either loop itself or hand its bytes to the byte variant
         got = summ2.summarize(F, upds, inline=inl)
-        want_a = fold_spec("as_bytes(arg2)", "arg1", False)
+        want_a = fold_spec("arg2", "arg1", False)
         txt = [o["text"] for o in got["outcomes"]]
-        via = upd is not None and len(txt) == 1 and txt[0] == "#1 = %s(arg1, as_bytes(arg2)) => #1" % upd.def_
+        via = upd is not None and len(txt) == 1 and txt[0] == "#1 = %s(arg1, arg2) => #1" % upd.def_
         okS = via or not summ2.compare(want_a, got)
         run_.check(okS, "F", "hash_update_str", "a string must be hashed as exactly its UTF-8 bytes, in order", upds.where(), found=txt[:3])
     for f in hasher_update[:1]:
@@ -347,7 +350,7 @@ def run(run_, ctx):
         # the str variant is the byte variant on as_bytes (rule hash_update_str above): analysed in place so that either spelling reads the same
         inl2 = lambda f_, ev: f_.crate == "postcard_schema" and (f_.canon not in keep or f_.canon == upds.canon)
         got = [o["text"] for o in summ2.summarize(F, f, inline=inl2)["outcomes"]]
-        want1 = "#1 = %s(%d, as_bytes(arg1)); #2 = %s(#1, %s) => %s" % (upd.def_ if upd else "?", BASIS, sdm.def_, subj, le8("#2"))
+        want1 = "#1 = %s(%d, arg1); #2 = %s(#1, %s) => %s" % (upd.def_ if upd else "?", BASIS, sdm.def_, subj, le8("#2"))
         run_.check(len(got) == 1 and _same_call_text(got[0], want1), "F", "hash_ty_path" + ("_owned" if owned else ""),
                    "key = FNV-1a(path bytes from the offset basis, then the schema stream), little-endian", f.where(), expected=[want1], found=got)
     # Key constructors
